@@ -2429,6 +2429,15 @@ class Interp:
             if len(a) == 1 and not isinstance(a[0], Obj):
                 return self.m_abs(a[0])
             return NotImplemented
+        if s in ('std::copysign', 'copysign'):
+            a = A()
+            if self.mode == 'float':
+                return math.copysign(float(a[0]), float(a[1]))
+            # |a| with the sign of b (over the reals: the sign of a zero b counts as +)
+            mag = self.m_abs(a[0])
+            if not is_sym(a[1]):
+                return mag if Fraction(a[1]) >= 0 else neg(mag)
+            return ite(cmp('>=', a[1], 0), mag, neg(mag))
         if s in ('std::sqrt', 'sqrt'):
             a = A()
             if isinstance(a[0], Cx):
